@@ -219,6 +219,7 @@ func (w *Worker) RunPath(name string, item WorkItem, concrete map[string]uint64)
 	i.effects = nil
 	i.permCnt = 0
 	i.mapOrderMode = false
+	i.formatOpaque = false
 	mark := len(i.journal)
 	i.journalOn = true
 	st, msg := w.protect(func() { call(i, nil, token.NoPos, fn, nil) })
